@@ -312,4 +312,23 @@ structure StrictTotal (lt : V → V → Bool) : Prop where
 def stableSort {α : Type} (less : α → α → Bool) (l : List α) : List α :=
   l.mergeSort (fun x y => !less y x)
 
+/-- inner loop of Go's `insertionSort(data, a, b)` (sort/zsortinterface.go):
+`for j := i; j > a && data.Less(j, j-1); j-- { data.Swap(j, j-1) }`.
+`acc` is the already sorted `data[a:i]` REVERSED (nearest neighbour first), `x = data[i]`; the
+result is `data[a:i+1]` after the loop, reversed. -/
+def bubble {α : Type} (less : α → α → Bool) : List α → α → List α
+  | [], x => [x]
+  | p :: ps, x => if less x p then p :: bubble less ps x else x :: p :: ps
+
+/-- `insertionSort(data, 0, n)`: this IS `sort.Sort` for `Len() <= 12` and `sort.Stable` for
+`Len() <= 20` (Go 1.23: `pdqsort` with `maxInsertion = 12`, `stable` with `blockSize = 20`). -/
+def goInsertionSort {α : Type} (less : α → α → Bool) (l : List α) : List α :=
+  (l.foldl (bubble less) []).reverse
+
+/-- generated `Swap(i, j)`: `s[i], s[j] = s[j], s[i]`; `none` = index out of range (panic) -/
+def swap {α : Type} (s : List α) (i j : Nat) : Option (List α) :=
+  match s[i]?, s[j]? with
+  | some x, some y => some ((s.set i y).set j x)
+  | _, _ => none
+
 end GSort
